@@ -154,8 +154,9 @@ def extract_selected_variable_and_expression(symbolic_cls: Type, domain: Optiona
     """
     cache_keys = get_cache_keys_for_class_(Variable._cache_, symbolic_cls)
     if not domain and cache_keys:
-        domain = From((v for a, v in yield_class_values_from_cache(Variable._cache_, symbolic_cls, from_index=False,
-                                                                   cache_keys=cache_keys)))
+        # The registered classes are looked up when the values are first pulled (like the values themselves), so that
+        # a subclass first instantiated after this declaration is not missed.
+        domain = From((v for a, v in yield_class_values_from_cache(Variable._cache_, symbolic_cls, from_index=False)))
     elif domain and is_iterable(domain.domain):
             domain.domain = filter(lambda v: isinstance(v, symbolic_cls), domain.domain)
 
